@@ -51,7 +51,13 @@ def gen(seed: int, tier: str) -> dict[str, Any]:
             v = rng.choice([1, 1, 1, 0]) if rng.random() < 0.3 else (tgs[-1]["v"] if tgs else 1)
         else:
             v = rng.choice([1, 1, 1, 0])
-        tgs.append({"t": round(t, 6), "v": v, "g": g if i else "first"})
+        tg = {"t": round(t, 6), "v": v, "g": g if i else "first"}
+        if kind == "bs_reset" and i and v == 1 and tgs[-1]["v"] == 1 and g in ("tiny", "half", "near-") and rng.random() < 0.6:
+            # a repeated 'on' arriving as GroupValueResponse (answer to someone's read) while the sensor is on restarts
+            # the timer like any 'on' telegram.  (A response 'on' after an automatic reset does not switch the sensor
+            # on again in xknx - outside the statement, recorded as observation in DESIGN.md, not generated here.)
+            tg["apci"] = "response"
+        tgs.append(tg)
     return {"seed": seed, "tier": "S",
             "config": {"kind": kind, "reset": reset, "ctx": ctx, "epoch_base": rng.choice([0.0, 1.7e9]), "batch": 1,
                        "invert": False},
@@ -98,12 +104,13 @@ def run(plan: dict[str, Any]) -> dict[str, Any]:
         await xknx.start()
         t0 = loop.time()
 
-        def send(v):
+        def send(v, apci="write"):
             processed.append((loop.time(), v))
-            stub.deliver(W.cemi_ldata(W.L_DATA_IND, 0x1101, GA_S, tpci_apci=W.gv_write_small(v)), "tg")
+            pdu = W.gv_response_small(v) if apci == "response" else W.gv_write_small(v)
+            stub.deliver(W.cemi_ldata(W.L_DATA_IND, 0x1101, GA_S, tpci_apci=pdu), "tg")
 
         for tg in plan["ops"]:
-            loop.at(t0 + tg["t"], (lambda v=tg["v"]: send(v)), label="tg")
+            loop.at(t0 + tg["t"], (lambda v=tg["v"], a=tg.get("apci", "write"): send(v, a)), label="tg")
         tl = plan["ops"][-1]["t"]
         # sample the state around the expected reset instants
         ons = [tg["t"] for tg in plan["ops"] if tg["v"] == 1]
@@ -119,7 +126,7 @@ def run(plan: dict[str, Any]) -> dict[str, Any]:
     R.execute(main())
     t0 = info.get("t0", 1000.0)
     tgs = plan["ops"]
-    abstract = [kind, [(tg["g"], tg["v"]) for tg in tgs]]
+    abstract = [kind, [(tg["g"], tg["v"], tg.get("apci", "w")[0]) for tg in tgs]]
     nontrivial = False
     eps = 1e-6
     if kind in ("bs_reset", "bs_both", "switch_reset"):
